@@ -287,7 +287,11 @@ impl Monitor for C11 {
                 let idx = c.args().u8() as usize;
                 let pk = c.a("position");
                 if let (Some(pre), Some(post), true) = (v.pre.data(&pk).and_then(decode::position), v.post.data(&pk).and_then(decode::position), idx < 3) {
-                    let vault = c.a("reward_vault");
+                    // the vault registered for this reward index in the pool, whatever account the caller put in the slot
+                    let vault = v.pre.data(&c.a("whirlpool")).and_then(decode::pool).map(|p| p.rewards[idx].vault).unwrap_or(c.a("reward_vault"));
+                    if vault != c.a("reward_vault") {
+                        cov.note("c11_collect_names_another_account_as_vault");
+                    }
                     let vault_pre = token_amount(v.pre, &vault);
                     let paid = token_amount(v.post, &c.a("reward_owner_account")) as i128 - token_amount(v.pre, &c.a("reward_owner_account")) as i128;
                     let vdelta = token_amount(v.post, &vault) as i128 - vault_pre as i128;
